@@ -162,8 +162,10 @@ fn play(
     positions: &[usize],
     commands_mid_frame: bool,
     delays: bool,
+    read_fault: Option<(usize, std::io::ErrorKind)>,
     out: &mut RunOut,
 ) -> Played {
+    let mut fault_armed = false;
     let ch = rig.channel.as_ref().unwrap();
     let mut pos = 0usize;
     let mut ei = 0usize;
@@ -195,6 +197,12 @@ fn play(
         let mut c = cuts.iter().copied().find(|c| *c > pos).unwrap_or(sc.stream.len());
         if ei < sc.events.len() && positions[ei] > pos {
             c = c.min(positions[ei]);
+        }
+        if let Some((f, kind)) = read_fault {
+            if !fault_armed && c >= f {
+                peer.inject_read_error((f - pos) as u64, kind);
+                fault_armed = true;
+            }
         }
         let chunk = &sc.stream[pos..c];
         if delays && chance(1, 4) {
@@ -268,7 +276,7 @@ pub fn run(cfg: &ScenCfg, out: &mut RunOut) {
     let sc = gen_script();
     // A: frame by frame, events at their frame-aligned positions
     let pos_a: Vec<usize> = sc.events.iter().map(|e| e.1).collect();
-    let a = play(&rig_a, &pa, &sc, &sc.frame_ends, &pos_a, false, false, out);
+    let a = play(&rig_a, &pa, &sc, &sc.frame_ends, &pos_a, false, false, None, out);
     // B: arbitrary cuts; every event anywhere in its legal window
     let mut cuts = super::server_tcp::cut_plan(sc.stream.len(), &sc.frame_ends);
     let mut pos_b = Vec::new();
@@ -289,7 +297,68 @@ pub fn run(cfg: &ScenCfg, out: &mut RunOut) {
     if sc.frame_ends.len() > 1 && chance(1, 2) {
         cuts.retain(|c| !sc.frame_ends[..sc.frame_ends.len() - 1].contains(c) || chance(1, 2));
     }
-    let b = play(&rig_b, &pb, &sc, &cuts, &pos_b, true, cfg.faults, out);
+    // fault: one read of client B fails strictly inside a frame (not at an event position), with a transient
+    // kind or a fatal one. B must then either have carried on exactly like A (transient kinds only) or have
+    // given up at that point: earlier requests as in A, the outstanding one fails with that I/O error, later
+    // ones with no-connection, connection closed
+    let read_fault: Option<(usize, std::io::ErrorKind)> = if cfg.faults && !sc.bad_header && chance(1, 3) {
+        let k = choose(sc.frame_ends.len() as u32) as usize;
+        let start = if k == 0 { 0 } else { sc.frame_ends[k - 1] };
+        let end = sc.frame_ends[k];
+        let f = start + 1 + choose((end - start - 1).max(1) as u32) as usize;
+        if f < end && !pos_b.contains(&f) {
+            kernel::count("fault_read_err_mid_stream");
+            out.probe("client_read_error_mid_stream");
+            Some((f, [std::io::ErrorKind::Interrupted, std::io::ErrorKind::WouldBlock, std::io::ErrorKind::TimedOut, std::io::ErrorKind::ConnectionReset][choose(4) as usize]))
+        } else {
+            None
+        }
+    } else {
+        None
+    };
+    let b = play(&rig_b, &pb, &sc, &cuts, &pos_b, true, cfg.faults, read_fault, out);
+    if let Some((f, kind)) = read_fault {
+        let transient = matches!(kind, std::io::ErrorKind::Interrupted | std::io::ErrorKind::WouldBlock);
+        let carried_on = a.comps == b.comps && a.wire == b.wire && !b.closed;
+        // what giving up at byte f means for every request of the script
+        let mut want: Vec<(usize, Outcome)> = Vec::new();
+        for (i, _) in sc.steps.iter().enumerate() {
+            let sub = sc.events.iter().zip(pos_b.iter()).find(|((e, _, _, _), _)| *e == Ev::Submit(i)).map(|(_, p)| *p).unwrap();
+            let tmo = sc.events.iter().zip(pos_b.iter()).find(|((e, _, _, _), _)| *e == Ev::Timeout(i)).map(|(_, p)| *p);
+            // the reply of an answered request is the frame that ends at the upper bound of its submit window + 1
+            let reply_end = sc.events.iter().find(|(e, _, _, _)| *e == Ev::Submit(i)).map(|(_, _, _, hi)| *hi + 1).unwrap();
+            let done_before = match tmo {
+                Some(q) => q < f,
+                None => reply_end <= f,
+            };
+            let o = if sub > f {
+                Outcome::NoConnection
+            } else if done_before {
+                a.comps.iter().find(|c| c.0 == i).map(|c| c.1.clone()).unwrap_or(Outcome::NoConnection)
+            } else {
+                Outcome::Io(format!("{:?}", kind))
+            };
+            want.push((i, o));
+        }
+        let gave_up = b.comps == want && b.closed;
+        if !(gave_up || (transient && carried_on)) {
+            let d = format!(
+                "{}: a read of the client failed with {:?} at byte {} of the peer's stream; completions {:?} (connection closed by the client: {}); carrying on correctly would give {:?}, giving up there {:?} and a closed connection",
+                format!("{} requests, {}-byte peer stream, cuts {:?}, event positions {:?}", sc.steps.len(), sc.stream.len(), &cuts[..cuts.len().min(10)], pos_b),
+                kind, f, b.comps, b.closed, a.comps, want
+            );
+            out.violate("C05", "client_read_error_mid_stream", d.clone());
+            out.violate("C10", "client_read_error_mid_stream", d.clone());
+            out.violate("C11", "client_read_error_mid_stream", d);
+        }
+        out.ops_checked = sc.steps.len() as u64;
+        out.nontrivial = Some((f as u64) << 32 ^ sc.stream.len() as u64 ^ (cuts.len() as u64) << 20);
+        for rig in [&rig_a, &rig_b] {
+            spawn_cmd(rig.channel.as_ref().unwrap(), 3, 0);
+        }
+        kernel::settle();
+        return;
+    }
     if b.reads_with_several_frames > 0 {
         out.probe("client_several_frames_in_one_write");
     }
